@@ -205,3 +205,7 @@ Definition dec_of_N (n : N) : str := dec_aux 40 n [].
 
 Fixpoint count_ch (c : N) (s : str) : nat :=
   match s with [] => O | x :: s' => (if x =? c then 1 else 0) + count_ch c s' end.
+
+(* length of the run of [c] at the start of [s] *)
+Fixpoint run_len (c : N) (s : str) : nat :=
+  match s with x :: s' => if N.eqb x c then S (run_len c s') else O | [] => O end.
